@@ -26,6 +26,9 @@ type World struct {
 	Net     *consensus.Network
 	Genesis types.Block
 	Seed    string // makes block ids reproducible
+	// V1Window selects which heights in [AllowHeight, RequireHeight) are mined as (still legal) v1
+	// blocks: "" none (what coreutils.MineBlock does), "all", "alt" (even heights), "first", "last"
+	V1Window string
 
 	mu     sync.Mutex
 	name   map[types.BlockID]string
@@ -163,14 +166,40 @@ func (w *World) StateOf(id types.BlockID) (consensus.State, bool) {
 
 // mineOn builds (like coreutils.MineBlock) one block on top of cs; unique by miner address and
 // a salt in the v2 arbitrary data / v1 arbitrary-data transaction.
+// v1At reports whether the block at the given height is to be mined as a v1 block.
+func (w *World) v1At(pattern string, h uint64) bool {
+	a, r := w.Net.HardforkV2.AllowHeight, w.Net.HardforkV2.RequireHeight
+	if h < a {
+		return true
+	} else if h >= r {
+		return false
+	}
+	switch pattern {
+	case "all":
+		return true
+	case "alt":
+		return h%2 == 0
+	case "first":
+		return h == a
+	case "last":
+		return h == r-1
+	}
+	return false
+}
+
 func mineOn(cs consensus.State, addr types.Address, salt []byte, ts time.Time) types.Block {
+	return mineOnV(cs, addr, salt, ts, false)
+}
+
+// mineOnV is mineOn with the choice of a v1 block inside the [allow, require) window.
+func mineOnV(cs consensus.State, addr types.Address, salt []byte, ts time.Time, v1 bool) types.Block {
 	b := types.Block{
 		ParentID:     cs.Index.ID,
 		Timestamp:    ts,
 		MinerPayouts: []types.SiacoinOutput{{Value: cs.BlockReward(), Address: addr}},
 	}
 	childHeight := cs.Index.Height + 1
-	if childHeight >= cs.Network.HardforkV2.AllowHeight {
+	if childHeight >= cs.Network.HardforkV2.AllowHeight && !(v1 && childHeight < cs.Network.HardforkV2.RequireHeight) {
 		b.V2 = &types.V2BlockData{
 			Height:       childHeight,
 			Transactions: []types.V2Transaction{{ArbitraryData: salt}},
@@ -197,7 +226,7 @@ func (w *World) Extend(cm *chain.Manager, prefix string, n int) []types.Block {
 	for i := 0; i < n; i++ {
 		cs := cm.TipState()
 		salt := []byte(fmt.Sprintf("%s-%d-%s", prefix, cs.Index.Height+1, w.Seed))
-		b := mineOn(cs, addr, salt, cs.PrevTimestamps[0].Add(time.Second))
+		b := mineOnV(cs, addr, salt, cs.PrevTimestamps[0].Add(time.Second), w.v1At(w.V1Window, cs.Index.Height+1))
 		if err := cm.AddBlocks([]types.Block{b}); err != nil {
 			panic(fmt.Sprintf("mined block rejected: %v", err))
 		}
